@@ -166,6 +166,24 @@ func C04(rep *ev.Reporter, tier string) {
 			}
 		}
 	}
+	// long action lists: windows of 12 consecutive assignments of the alphabet (every start, cyclically; Complete() left out)
+	{
+		seq := c04Seq[1:]
+		gen0 := gen
+		gen = func(emit func(Case)) {
+			gen0(emit)
+			for st := range seq {
+				var acts []string
+				for k := 0; k < 12; k++ {
+					acts = append(acts, seq[(st+k)%len(seq)])
+				}
+				if okModel(acts) {
+					c := mkCase(fmt.Sprintf("c04/long/%d", st), fmt.Sprintf("long-list-from=%s", seq[st]), acts)
+					emit(c)
+				}
+			}
+		}
+	}
 	// read - write - read inside one action list, for every location of the dependency matrix and every
 	// (aliased) reader/writer pair: the second read must see the write although the first read was remembered
 	var nRWR int64
